@@ -450,3 +450,23 @@ case('c11-so2-check-strict-upper', ['C11'], ['C11.accept'],
      (SO2, "            return value >= lower && value <= upper;", "            return value >= lower && value < upper;"))
 case('benign-c11-so2-check-reordered', ['C11', 'C12', 'C14'], [],
      (SO2, "            return value >= lower && value <= upper;", "            return value <= upper && value >= lower;"))
+
+
+# round 4 of seeded changes
+seeded('seeded-R4C01-connect-skips-endpoint', ['C01'], ['C01.kernel'])
+seeded('seeded-R4C03-stale-resolution', ['C03'], ['C03.res'])
+seeded('seeded-R4C07-deadline-in-neighbour-loop', ['C07'], ['C07.clock'])
+seeded('seeded-R4C08-instant-plus-timeout', ['C08', 'C06', 'C07'], ['C08.panics'])
+seeded('seeded-R4C09-single-fold-distance', ['C09'], ['C09.range'])
+seeded('seeded-R4C10-raw-difference', ['C10'], ['C10.arc'])
+seeded('seeded-R4C13-endpoint-fast-path', ['C13'], ['C13.index'])
+seeded('seeded-R4C14-rotation-vector-ball', ['C14'], ['C14.so3'])
+seeded('seeded-R4C15-setup-keeps-tree', ['C01', 'C02'], ['C01.recheck', 'C02.reroot'])
+for _k in (1, 2, 3, 4, 5):
+    benign_patch('ben8-r%d' % _k, ALL)                          # RRT / PRM clean-ups (enumerate, sample_target(), successors walk, flattened build loop)
+    benign_patch('ben9-r%d' % _k, ALL)                          # additive API (Path accessors, SO3 accessors, PlannerStats, derives, delegating constructors)
+    benign_patch('ben10-r%d' % _k, ['C06', 'C07', 'C08', 'C09', 'C10', 'C11', 'C12', 'C13', 'C14'])   # primitive space clean-ups
+benign_patch('ben1-r3', ALL)                                   # RRT-Connect: enum GrowingTree + match + continue (decision-split view)
+benign_patch('ben5-r4', ALL)                                   # RRT-Connect: flag first, join_trees() helper
+benign_patch('ben7-r3', ['C19', 'C20'])                        # generic call_with_state::<T>() in the Python goal adapter
+benign_patch('ben7-r4', ['C19', 'C20'])                        # to_py_result() free function + macro arms
